@@ -146,6 +146,20 @@ theorem C02_full (cfg : Searcher.Config) (m : MatcherI) (σ : Script) (inp : Byt
     (⟨inp, script, 0⟩ : Reader).withBomPeek (withBomPeek_noZero _ hz)
   exact this.1
 
+/-- `C02_full` for the value returned: `search_reader` returns `Ok` / `Err` exactly when `search_slice` does
+(same hypotheses; the sink script may stop or fail at any callback). -/
+theorem C02_full_result (cfg : Searcher.Config) (m : MatcherI) (σ : Script) (inp : Bytes) (script : List Step)
+    (cap : Option Nat) (hbin : cfg.binary = .none) (hml : cfg.multiLine = false)
+    (hslow : isLineByLineFast cfg m (Core.new cfg true) = false) (hz : NoZero script) :
+    (searchReader cfg m σ none cap ⟨inp, script, 0⟩).result = (searchSlice cfg m σ inp).result := by
+  have hmm : multiLineWithMatcher cfg m = false := by simp [multiLineWithMatcher, hml]
+  unfold searchReader searchSlice
+  simp only [hmm, Bool.false_eq_true, if_false]
+  have := C02 cfg m σ hbin hslow (lineBufferConfig cfg none cap) rfl
+    (by simp [lineBufferConfig, hbin, BinaryDetection.toLB]) (by simp [lineBufferConfig])
+    (⟨inp, script, 0⟩ : Reader).withBomPeek (withBomPeek_noZero _ hz)
+  exact this.2
+
 /-- `Core::is_line_by_line_fast` since /repo a2e984b: with a terminator byte other than `\n` (NUL
 under `--null-data`, any `LineTerminator::byte`) the slow path is taken WHATEVER the matcher
 announces (`line_terminator()`, `non_matching_bytes()`). -/
